@@ -11,7 +11,8 @@ if [ -x props/$lc/check.sh ]; then
   exec props/$lc/check.sh "$tier" "$@"
 fi
 mkdir -p bin
-if ! go build -o bin/$lc ./props/$lc 2>bin/$lc.buildlog; then
+ov=""; [ -n "${VERIF_OVERLAY:-}" ] && ov="-overlay $VERIF_OVERLAY"
+if ! go build $ov -o bin/$lc ./props/$lc 2>bin/$lc.buildlog; then
   cat bin/$lc.buildlog >&2
   echo "BROKEN: build of check $prop failed" >&2
   exit 2
